@@ -195,10 +195,14 @@ class PVLEncoder(object):
 
         if len(prefix + s + self.newline) > self.width and "=" in s:
             (preq, _, posteq) = s.partition("=")
-            new_prefix = prefix + preq.strip() + " = "
+            # Only strip what the grammar considers white space, a bare
+            # strip() also takes characters like the no-break space,
+            # which are part of an unquoted value.
+            ws = "".join(self.grammar.whitespace)
+            new_prefix = prefix + preq.strip(ws) + " = "
 
             lines = textwrap.wrap(
-                posteq.strip(),
+                posteq.strip(ws),
                 width=(self.width - len(self.newline)),
                 replace_whitespace=False,
                 initial_indent=new_prefix,
